@@ -168,6 +168,7 @@ fn scen(spec: RunSpec) -> ScenFut {
                     c.fail_before_pm = 30;
                     c.fail_after_pm = 30;
                     c.delay_pm = 20;
+                    c.body_break_pm = 10;
                     c.fault_budget = d2;
                 }
                 2 => {
